@@ -299,7 +299,11 @@ func (ex *Exec) doUnOp(st *State, fr *Frame, in *ssa.UnOp) Value {
 			tt := in.Type().(*types.Tuple)
 			return &VTuple{Vals: []Value{ex.symbolicValue(st, tt.At(0).Type(), ex.fresh("recv", SInt).Name, 0), ex.fresh("recvok", SBool)}}
 		}
-		return ex.symbolicValue(st, in.Type(), ex.fresh("recv", SInt).Name, 0)
+		// deterministic name (the instruction may be re-executed after a case split); the value is
+		// remembered as the ghost "last received" for contracts (chanlast())
+		rv := ex.symbolicValue(st, in.Type(), fmt.Sprintf("recv!%s!%d", ex.siteName(st, in, "recv"), st.top().visits[st.top().block]), 0)
+		st.ghost["$lastrecv"] = rv
+		return rv
 	}
 	ex.unsupported("unary operator %s", in.Op)
 	return nil
